@@ -708,6 +708,14 @@ func (e *Explorer) witness() map[string]any {
 }
 
 func (e *Explorer) checkAll() (smt.Result, smt.Model) {
+	if iq := smt.BuildQueryInt(e.PC, e.intervals()); iq != nil && !iq.Abstracted {
+		if r, m, err := e.S.Check(smt.Z3New, iq, true); err == nil && r != smt.Unknown {
+			if r == smt.Sat {
+				m = e.completeModel(m)
+			}
+			return r, m
+		}
+	}
 	q := smt.BuildQuery(e.PC)
 	for _, be := range backends(q) {
 		r, m, err := e.S.Check(be, q, true)
